@@ -45,6 +45,33 @@ type c06Case struct {
 	Flags   []string          `json:"flags,omitempty"` // agg: granularity / -noinlines
 }
 
+// ---------- small helpers (own copies: this runner must not depend on another property's files) ----------
+
+// c06safely runs f, converting a panic into an error string.
+func c06safely(f func()) (panicked string) {
+	defer func() {
+		if e := recover(); e != nil {
+			panicked = fmt.Sprint(e)
+		}
+	}()
+	f()
+	return ""
+}
+
+func c06firstWord(s string) string {
+	if i := strings.IndexByte(s, ' '); i >= 0 {
+		return s[:i]
+	}
+	return s
+}
+
+func c06trunc(s string) string {
+	if len(s) > 200 {
+		return s[:200] + "…"
+	}
+	return s
+}
+
 // ---------- token helpers ----------
 
 // rxTok: "0" for nil, otherwise the list of the candidate strings the expression matches.
@@ -412,18 +439,18 @@ func c06Name(c *Ctx, cs c06Case) {
 	model := c.Drv.Ask("name.model " + args)
 	inViews := viewList(p)
 	var fm, im, hm, hnm bool
-	if pn := safely(func() { fm, im, hm, hnm = p.FilterSamplesByName(res[0], res[1], res[2], res[3]) }); pn != "" {
+	if pn := c06safely(func() { fm, im, hm, hnm = p.FilterSamplesByName(res[0], res[1], res[2], res[3]) }); pn != "" {
 		c.Violation("C06/name/panic", "FilterSamplesByName panics: "+pn, cs)
 		return
 	}
 	real := viewList(p)
 	oracleFailed := false
 	if spec, ok := splitViews(specS); !ok {
-		c.Disagree("C06/name/spec-unreadable", "driver reply for name.spec unreadable: "+trunc(specS), "Spec nameSpec (driver)", cs)
+		c.Disagree("C06/name/spec-unreadable", "driver reply for name.spec unreadable: "+c06trunc(specS), "Spec nameSpec (driver)", cs)
 	} else if kind, rv, sv := diffViews(real, spec); kind != "" {
 		oracleFailed = true
 		sig := "C06/name/" + optSet(cs.Opts) + "/" + kind
-		what := fmt.Sprintf("FilterSamplesByName(%v) differs from the frame-level rule (%s): real %q, rule %q", cs.Opts, kind, trunc(rv), trunc(sv))
+		what := fmt.Sprintf("FilterSamplesByName(%v) differs from the frame-level rule (%s): real %q, rule %q", cs.Opts, kind, c06trunc(rv), c06trunc(sv))
 		_, sf := viewFrames(sv)
 		switch {
 		case kind == "sample-missing" && sv != "" && len(sf) == 0 && cs.Opts["focus"] == "":
@@ -494,7 +521,7 @@ func b01(b bool) string {
 func modelDiff(got, model string) string {
 	gf, mf := strings.Fields(got), strings.Fields(model)
 	if len(mf) < 5 || len(gf) < 5 {
-		return firstWord(model)
+		return c06firstWord(model)
 	}
 	return "profile-or-flags"
 }
@@ -514,7 +541,7 @@ func c06Partition(c *Ctx, cs c06Case) {
 	all := viewList(p0)
 	pf, _ := ParseCanon(cs.Profile)
 	pi, _ := ParseCanon(cs.Profile)
-	if pn := safely(func() { pf.FilterSamplesByName(re, nil, nil, nil); pi.FilterSamplesByName(nil, re, nil, nil) }); pn != "" {
+	if pn := c06safely(func() { pf.FilterSamplesByName(re, nil, nil, nil); pi.FilterSamplesByName(nil, re, nil, nil) }); pn != "" {
 		c.Violation("C06/name/panic", pn, cs)
 		return
 	}
@@ -541,7 +568,7 @@ func c06Partition(c *Ctx, cs c06Case) {
 		if len(fr) == 0 && cnt[bad] > 0 {
 			sig = "C06/focus-ignore/empty-stack-sample-dropped"
 		}
-		c.Violation(sig, fmt.Sprintf("focus=%q and ignore=%q do not partition the samples: %d + %d of %d (unaccounted %q)", cs.Opts["R"], cs.Opts["R"], len(vf), len(vi), len(all), trunc(bad)), cs)
+		c.Violation(sig, fmt.Sprintf("focus=%q and ignore=%q do not partition the samples: %d + %d of %d (unaccounted %q)", cs.Opts["R"], cs.Opts["R"], len(vf), len(vi), len(all), c06trunc(bad)), cs)
 		return
 	}
 	// totals add up, per column, in unbounded integers
@@ -560,7 +587,7 @@ func c06Partition(c *Ctx, cs c06Case) {
 		// the Spec's total agrees with that sum
 		if col == 0 {
 			if t := c.Drv.Ask(fmt.Sprintf("total %d %s", col, cs.Profile)); t != sum(p0).String() {
-				c.Disagree("C06/total-spec", "Spec.total differs from the Go sum: "+trunc(t), "Spec total (driver)", cs)
+				c.Disagree("C06/total-spec", "Spec.total differs from the Go sum: "+c06trunc(t), "Spec total (driver)", cs)
 			}
 		}
 	}
@@ -604,21 +631,21 @@ func c06ShowFrom(c *Ctx, cs c06Case) {
 	specS := c.Drv.Ask("showfrom.spec " + args)
 	model := c.Drv.Ask("showfrom.model " + args)
 	var m bool
-	if pn := safely(func() { m = p.ShowFrom(re) }); pn != "" {
+	if pn := c06safely(func() { m = p.ShowFrom(re) }); pn != "" {
 		c.Violation("C06/show_from/panic", pn, cs)
 		return
 	}
 	real := viewList(p)
 	oracleFailed := false
 	if spec, ok := splitViews(specS); !ok {
-		c.Disagree("C06/show_from/spec-unreadable", trunc(specS), "Spec showFromSpec (driver)", cs)
+		c.Disagree("C06/show_from/spec-unreadable", c06trunc(specS), "Spec showFromSpec (driver)", cs)
 	} else if kind, rv, sv := diffViews(real, spec); kind != "" {
 		oracleFailed = true
 		sig := "C06/show_from/" + kind
 		if known && kind == "frames-lost" {
 			sig = "C06/show_from/inlined-location-below-highest-match"
 		}
-		c.Violation(sig, fmt.Sprintf("ShowFrom(%q) differs from the frame-level rule (%s): real %q, rule %q", cs.Opts["show_from"], kind, trunc(rv), trunc(sv)), cs)
+		c.Violation(sig, fmt.Sprintf("ShowFrom(%q) differs from the frame-level rule (%s): real %q, rule %q", cs.Opts["show_from"], kind, c06trunc(rv), c06trunc(sv)), cs)
 	}
 	c.Res.ModelCompared++
 	if got := Canon(p) + " " + b01(m); got != model && (!oracleFailed || known) {
@@ -644,16 +671,16 @@ func c06Tags(c *Ctx, cs c06Case) {
 	specS := c.Drv.Ask("tags.spec " + args)
 	model := c.Drv.Ask("tags.model " + args)
 	var sm, hm bool
-	if pn := safely(func() { sm, hm = p.FilterTagsByName(sh, hi) }); pn != "" {
+	if pn := c06safely(func() { sm, hm = p.FilterTagsByName(sh, hi) }); pn != "" {
 		c.Violation("C06/tags/panic", pn, cs)
 		return
 	}
 	oracleFailed := false
 	if spec, ok := splitViews(specS); !ok {
-		c.Disagree("C06/tags/spec-unreadable", trunc(specS), "Spec tagsSpecView (driver)", cs)
+		c.Disagree("C06/tags/spec-unreadable", c06trunc(specS), "Spec tagsSpecView (driver)", cs)
 	} else if kind, rv, sv := diffViews(viewList(p), spec); kind != "" {
 		oracleFailed = true
-		c.Violation("C06/tags/"+optSet(cs.Opts)+"/"+kind, fmt.Sprintf("FilterTagsByName differs from the rule: real %q, rule %q", trunc(rv), trunc(sv)), cs)
+		c.Violation("C06/tags/"+optSet(cs.Opts)+"/"+kind, fmt.Sprintf("FilterTagsByName differs from the rule: real %q, rule %q", c06trunc(rv), c06trunc(sv)), cs)
 	}
 	c.Res.ModelCompared++
 	if got := Canon(p) + " " + b01(sm) + " " + b01(hm); got != model && !oracleFailed {
@@ -739,17 +766,17 @@ func c06ByTag(c *Ctx, cs c06Case) {
 		}
 	}
 	var fm, im bool
-	if pn := safely(func() { fm, im = p.FilterSamplesByTag(fo, ig) }); pn != "" {
+	if pn := c06safely(func() { fm, im = p.FilterSamplesByTag(fo, ig) }); pn != "" {
 		c.Violation("C06/bytag/panic", pn, cs)
 		return
 	}
 	real := viewList(p)
 	oracleFailed := false
 	if spec, ok := splitViews(specS); !ok {
-		c.Disagree("C06/bytag/spec-unreadable", trunc(specS), "Spec tagSpec (driver)", cs)
+		c.Disagree("C06/bytag/spec-unreadable", c06trunc(specS), "Spec tagSpec (driver)", cs)
 	} else if kind, rv, sv := diffViews(real, spec); kind != "" {
 		oracleFailed = true
-		c.Violation("C06/bytag/"+kind, fmt.Sprintf("FilterSamplesByTag differs from the rule: real %q, rule %q", trunc(rv), trunc(sv)), cs)
+		c.Violation("C06/bytag/"+kind, fmt.Sprintf("FilterSamplesByTag differs from the rule: real %q, rule %q", c06trunc(rv), c06trunc(sv)), cs)
 	} else if kind, _, _ := diffViews(real, want); kind != "" {
 		oracleFailed = true
 		c.Violation("C06/bytag/go-rule/"+kind, "FilterSamplesByTag does not keep exactly the samples with focus ∧ ¬ignore", cs)
@@ -775,7 +802,7 @@ func c06Scale(c *Ctx, cs c06Case) {
 		if rep == "auto" {
 			return
 		}
-		c.Disagree("C06/scale-model/"+firstWord(rep), "model of measurement.Scale gives no value", "correspondence TagFilter.scale ~ measurement.Scale", cs)
+		c.Disagree("C06/scale-model/"+c06firstWord(rep), "model of measurement.Scale gives no value", "correspondence TagFilter.scale ~ measurement.Scale", cs)
 		return
 	}
 	num, _ := new(big.Int).SetString(f[1], 10)
@@ -830,11 +857,11 @@ func runPprofProto(pprofBin, dir string, idx int, p *profile.Profile, opts map[s
 	var stderr bytes.Buffer
 	cmd.Stderr = &stderr
 	if err := cmd.Run(); err != nil {
-		return cliOut{err: "exit", msg: trunc(stderr.String())}
+		return cliOut{err: "exit", msg: c06trunc(stderr.String())}
 	}
 	b, err := os.ReadFile(out)
 	if err != nil {
-		return cliOut{err: "exit", msg: "no output: " + trunc(stderr.String())}
+		return cliOut{err: "exit", msg: "no output: " + c06trunc(stderr.String())}
 	}
 	q, err := profile.ParseData(b)
 	if err != nil {
@@ -921,7 +948,7 @@ func c06CliEval(c *Ctx, cs c06Case, res cliOut) {
 		}
 		return
 	case !strings.HasPrefix(rep, "ok "):
-		c.Disagree("C06/cli-model/"+firstWord(rep), "driver: "+trunc(rep), broken, cs)
+		c.Disagree("C06/cli-model/"+c06firstWord(rep), "driver: "+c06trunc(rep), broken, cs)
 		return
 	}
 	if res.err != "" {
@@ -931,7 +958,7 @@ func c06CliEval(c *Ctx, cs c06Case, res cliOut) {
 	i := strings.Index(rep, " | ")
 	mviews, ok := splitViews(rep[i+3:])
 	if !ok {
-		c.Disagree("C06/cli-model/unreadable", trunc(rep), broken, cs)
+		c.Disagree("C06/cli-model/unreadable", c06trunc(rep), broken, cs)
 		return
 	}
 	// single option: the frame-level rule itself is the oracle
@@ -988,14 +1015,14 @@ func c06CliEval(c *Ctx, cs c06Case, res cliOut) {
 						sig = "C06/show/unsymbolized-location-hidden-despite-mapping-match"
 					}
 				}
-				c.Violation(sig, fmt.Sprintf("pprof -proto -%s=%q differs from the rule (%s): real %q, rule %q", only, cs.Opts[only], kind, trunc(rv), trunc(sv)), cs)
+				c.Violation(sig, fmt.Sprintf("pprof -proto -%s=%q differs from the rule (%s): real %q, rule %q", only, cs.Opts[only], kind, c06trunc(rv), c06trunc(sv)), cs)
 			}
 		} else {
-			c.Disagree("C06/cli/spec-unreadable", trunc(specS), "Spec (driver)", cs)
+			c.Disagree("C06/cli/spec-unreadable", c06trunc(specS), "Spec (driver)", cs)
 		}
 	}
 	if kind, rv, mv := diffViews(res.views, mviews); kind != "" && (!oracleFailed || known) {
-		c.Disagree("C06/cli-model/"+optSet(cs.Opts)+"/"+kind, fmt.Sprintf("pprof -proto %v and the Lean model of applyFocus differ: real %q, model %q", cs.Opts, trunc(rv), trunc(mv)), broken, cs)
+		c.Disagree("C06/cli-model/"+optSet(cs.Opts)+"/"+kind, fmt.Sprintf("pprof -proto %v and the Lean model of applyFocus differ: real %q, model %q", cs.Opts, c06trunc(rv), c06trunc(mv)), broken, cs)
 	}
 }
 
@@ -1031,11 +1058,11 @@ func runPprofTop(pprofBin, dir string, idx int, p *profile.Profile, opts map[str
 	var stdout, stderr bytes.Buffer
 	cmd.Stdout, cmd.Stderr = &stdout, &stderr
 	if err := cmd.Run(); err != nil {
-		return "", "exit: " + trunc(stderr.String())
+		return "", "exit: " + c06trunc(stderr.String())
 	}
 	m := topTotalRx.FindStringSubmatch(stdout.String())
 	if m == nil {
-		return "", "no total line: " + trunc(stdout.String())
+		return "", "no total line: " + c06trunc(stdout.String())
 	}
 	return m[1], ""
 }
@@ -1068,7 +1095,7 @@ func c06TopEval(c *Ctx, cs c06Case, got, errs string) {
 		return
 	}
 	if !strings.HasPrefix(rep, "ok ") {
-		c.Disagree("C06/top-model/"+firstWord(rep), trunc(rep), "correspondence applyFocus model ~ pprof", cs)
+		c.Disagree("C06/top-model/"+c06firstWord(rep), c06trunc(rep), "correspondence applyFocus model ~ pprof", cs)
 		return
 	}
 	if cs.Rel {
@@ -1076,7 +1103,7 @@ func c06TopEval(c *Ctx, cs c06Case, got, errs string) {
 	}
 	c.Res.ModelCompared++
 	if errs != "" {
-		c.Violation("C06/top/"+firstWord(errs), "pprof -top with filter options fails: "+errs, cs)
+		c.Violation("C06/top/"+c06firstWord(errs), "pprof -top with filter options fails: "+errs, cs)
 		return
 	}
 	if got != want {
@@ -1126,7 +1153,7 @@ func runPprofAgg(pprofBin, dir string, idx int, p *profile.Profile, cs c06Case) 
 	var stdout, stderr bytes.Buffer
 	cmd.Stdout, cmd.Stderr = &stdout, &stderr
 	if err := cmd.Run(); err != nil {
-		return "", "exit: " + trunc(stderr.String())
+		return "", "exit: " + c06trunc(stderr.String())
 	}
 	return stdout.String(), ""
 }
@@ -1185,13 +1212,13 @@ func c06AggEval(c *Ctx, cs c06Case, out, errs string) {
 	}
 	i := strings.Index(rep, " | ")
 	if !strings.HasPrefix(rep, "ok ") || i < 0 {
-		c.Disagree("C06/agg-model/"+firstWord(rep), trunc(rep), "correspondence applyFocus model ~ pprof", cs)
+		c.Disagree("C06/agg-model/"+c06firstWord(rep), c06trunc(rep), "correspondence applyFocus model ~ pprof", cs)
 		return
 	}
 	// the rule's result on the UN-aggregated profile (model = rule: theorem name_filter_rule)
 	q, err := ParseCanon(rep[3:i])
 	if err != nil {
-		c.Disagree("C06/agg-model/unreadable", trunc(rep), "driver", cs)
+		c.Disagree("C06/agg-model/unreadable", c06trunc(rep), "driver", cs)
 		return
 	}
 	c.Res.ModelCompared++
@@ -1200,7 +1227,7 @@ func c06AggEval(c *Ctx, cs c06Case, out, errs string) {
 		tag += "-relative_percentages"
 	}
 	if errs != "" {
-		c.Violation("C06/agg/"+cs.Out+"/"+firstWord(errs), "pprof -"+cs.Out+" with filter options fails: "+errs, cs)
+		c.Violation("C06/agg/"+cs.Out+"/"+c06firstWord(errs), "pprof -"+cs.Out+" with filter options fails: "+errs, cs)
 		return
 	}
 	col := len(p.SampleType) - 1
@@ -1235,7 +1262,7 @@ func c06AggEval(c *Ctx, cs c06Case, out, errs string) {
 	case "top":
 		m := topLineRx.FindStringSubmatch(out)
 		if m == nil {
-			c.Violation("C06/agg/top/no-total-line", trunc(out), cs)
+			c.Violation("C06/agg/top/no-total-line", c06trunc(out), cs)
 			return
 		}
 		wantTot := totAll
@@ -1901,7 +1928,7 @@ func runC06(c *Ctx) {
 		c.Res.Count(caseKey(cs), nt)
 		c.Res.Hit("name:" + optSet(opts))
 		if i < 2 {
-			c.Res.Sample(map[string]any{"kind": "name", "opts": opts, "shape": describe(p), "profile": trunc(cs.Profile)})
+			c.Res.Sample(map[string]any{"kind": "name", "opts": opts, "shape": describe(p), "profile": c06trunc(cs.Profile)})
 		}
 		c06Name(c, cs)
 		if i%3 == 0 {
